@@ -257,6 +257,8 @@ var nativeURIs = []string{"http://localhost/cb", "http://127.0.0.1/cb", "http://
 	"com.example.app:/cb", "myapp://callback", "https://app.example.com/cb", "http://app.example.com/cb", "https://localhost/cb",
 	"http://localhost:3000/auth/callback", "http://[::1]:8080/cb?x=1", "https://[2001:db8::1]/cb", "myapp://cb?x=*",
 	"http://localhost/cb/", "MyApp://Callback",
+	// private-use schemes without authority (RFC 8252 7.1: scheme:/path), opaque and with an empty authority
+	"com.example.app:/oauth2redirect", "app:cb", "app:///cb", "com.example.app:/cb?x=1",
 	// loopback registrations with queries (several keys, an encoded space)
 	"http://localhost/auth/callback", "http://localhost/cb?a=1&b=2", "http://127.0.0.1/cb?q=a+b&z=%2Fhome", "http://[::1]/cb?b=2&a=1&a=0"}
 var globPool = []string{"https://*.example.com/cb", "https://app.example.com/**", "https://app.example.com/{cb,cb2}",
@@ -1786,6 +1788,43 @@ func directedCut(w *emit.Writer) {
 	}
 }
 
+// directedPrivateUse: native clients (dev mode off and on) that registered private-use scheme URIs in
+// every shape - scheme:/path (RFC 8252 7.1), scheme:opaque, scheme:///path, scheme://host/path - and
+// request exactly those (must be followed through to the callback as the library does today) and near
+// misses of them; the same registrations on web / user-agent clients (custom schemes are native-only).
+func directedPrivateUse(r drv.Rand, w *emit.Writer) {
+	uris := []string{"com.example.app:/oauth2redirect", "app:cb", "app:///cb", "com.example.app://callback", "com.example.app:/cb?x=1", "MyApp:/Cb"}
+	for _, app := range []op.ApplicationType{op.ApplicationTypeNative, op.ApplicationTypeWeb, op.ApplicationTypeUserAgent} {
+		for _, dev := range []bool{false, true} {
+			c := &refstore.Client{ID: "c0", App: app, Dev: dev, RespTypes: allRT, Redirects: uris, ATType: op.AccessTokenTypeBearer}
+			for _, u := range uris {
+				validateCase(r, w, c, u, "exact", "code", "directed=privateuse")
+				for _, near := range []string{u + "x", strings.Replace(u, ":", "://", 1), strings.ToUpper(u[:1]) + u[1:], strings.Replace(u, ":", ":/", 1)} {
+					validateCase(r, w, c, near, "privateuse-near", "code", "directed=privateuse")
+				}
+			}
+			if app != op.ApplicationTypeNative && dev {
+				continue
+			}
+			for _, router := range []opfix.Router{opfix.Provider, opfix.Legacy} {
+				for _, rt := range []string{"code", "id_token token"} {
+					var ops []hop
+					for _, u := range uris[:4] {
+						ops = append(ops, hop{kind: 0, router: router, q: areq{client: "c0", uri: u, rt: rt, mode: drv.Pick(r, []string{"", "query", "fragment", "form_post"})}})
+					}
+					for k := 0; k < 4; k++ {
+						ops = append(ops, hop{kind: 1, k: k})
+					}
+					for k := 0; k < 4; k++ {
+						ops = append(ops, hop{kind: 2, router: router, k: k})
+					}
+					runHistory(w, false, []*refstore.Client{c}, ops, []string{"kind=history", "directed=privateuse", "app=" + appNames[app], fmt.Sprintf("dev=%v", dev), "router=" + router.String()})
+				}
+			}
+		}
+	}
+}
+
 // directed cases that must stay in every run (former defect F14 and friends)
 func directed(r drv.Rand, w *emit.Writer) {
 	bad := &refstore.Client{ID: "c0", App: op.ApplicationTypeWeb, RespTypes: allRT, Redirects: []string{"https://app.example.com/cb"},
@@ -1853,6 +1892,7 @@ func main() {
 	directedRO(w)
 	directedCut(w)
 	directedDup(w)
+	directedPrivateUse(r, w)
 	nv := cfg.Count(900, 14000)
 	nh := cfg.Count(700, 10000)
 	ns := cfg.Count(200, 3000)
